@@ -400,6 +400,7 @@ package graphql
 //@ func fieldsAndFragmentSet.Add
 //@   props C02 C19 C09:safety
 //@   requires s != nil && s.data != nil
+//@   assigns class:M|
 //@   nopanic
 //@   ensures has(s.data, fields) && s.data[fields] != nil && has(s.data[fields], fragmentName) && s.data[fields][fragmentName] == areMutuallyExclusive
 
